@@ -11,8 +11,41 @@ VEC_MUT_DENY = re.compile(r'Vec::(insert|remove|swap_remove|truncate|clear|drain
 
 
 def push_table(chk, F, rule, cfg):
-    """R14.2: decision table of <MockAssembler as Sink>::push"""
-    fn = F.method('assemble::MockAssembler', 'push', 'clause::term::Sink')
+    """R14.2: decision table of <MockAssembler as Sink>::push — and of every other function that registers patterns"""
+    main = F.method('assemble::MockAssembler', 'push', 'clause::term::Sink')
+    writers = set()
+    for fn in F.fns.values():
+        for p_ in ([fn] + fn.promoted):
+            for bb, t in p_.calls(include_cleanup=True):
+                if re.search(r'BTreeMap::(entry|insert|get_mut|remove|retain|clear|append|extend|first_entry|last_entry|pop_first|pop_last|values_mut|iter_mut)$|Extend>?::extend$', symex.callee_name(t)):
+                    for a in t['args'][:1]:
+                        pl = a.get('mv') or a.get('cp')
+                        # the receiver is (a reborrow of) the fn_mockers field: resolve through the body's ref assignments
+                        if pl is not None and _refers_to_field(p_, pl, 'assemble::MockAssembler', 'fn_mockers'):
+                            writers.add(fn.root if fn.kind in ('closure',) else fn.defp)
+    chk.ob(rule, 'the assembler\'s Sink::push registers patterns', main.defp in writers, config=cfg, fn=main, site='writers', unrecognised=True, what='Sink::push does not touch fn_mockers', found=sorted(writers))
+    for w in sorted(writers):
+        _push_table_one(chk, F, rule, cfg, F.fns[w])
+    return main, None
+
+
+def _refers_to_field(body, place, adt, field, depth=0):
+    for e in place['pr']:
+        if isinstance(e, dict) and e.get('adt') == adt and e.get('name') == field:
+            return True
+    if depth > 4:
+        return False
+    # follow `_n = &mut <place>` definitions of the base local
+    for _, s in body.stmts(include_cleanup=True):
+        if s.get('k') == 'assign' and s['p']['l'] == place['l'] and not s['p']['pr']:
+            rv = s['rv']
+            src = rv.get('ref') or (rv.get('use', {}).get('mv') or rv.get('use', {}).get('cp'))
+            if src is not None and _refers_to_field(body, src, adt, field, depth + 1):
+                return True
+    return False
+
+
+def _push_table_one(chk, F, rule, cfg, fn):
     inline = lambda f, d, n: f.kind in ('fn', 'assoc') and f.locals[0]['ty'] == 'bool' and len(f.blocks) < 30  # noqa: E731
     paths = symex.Interp(F, inline=inline).run(fn)
     chk.analysed(fn)
@@ -48,7 +81,7 @@ def push_table(chk, F, rule, cfg):
 
     def outcome(p):
         lab = E.ret_label(p)
-        pushes = [e for e in p.calls(r'Vec::push$') if mentions(e.data[2][0], lambda x: x[0] == 'field' and x[2] == 'call_patterns')]
+        pushes = [e for e in p.calls(r'Vec::push$|Extend>?::extend$|Vec::extend\w*$|Vec::append$') if mentions(e.data[2][0], lambda x: x[0] == 'field' and x[2] == 'call_patterns')]
         inserts = list(p.calls(r'VacantEntry::insert$|BTreeMap::insert$'))
         others = [e.data[1] for e in p.calls() if VEC_MUT_DENY.search(e.data[1])]
         return '%s push=%d insert=%d%s' % (lab.split(':')[0], len(pushes), len(inserts), ' deny=%s' % others if others else '')
@@ -159,6 +192,9 @@ def each_deconstruct(chk, F, rule, cfg):
                    found=names or show(el)[:200], expected='for builder in self.patterns.into_iter() { sink.push(F::info(), builder)? }')
         if E.ret_label(p).startswith('Ok') and pushes:
             chk.ob(rule, 'a successful run pushed every element (loop ran to exhaustion)', True, config=cfg, fn=fn, site='complete')
+    sinks = [symex.callee_name(t) for _, t in fn.calls() if 'Sink' in symex.callee_unresolved(t)]
+    chk.ob(rule, 'stub patterns reach the assembler through Sink::push, one by one', bool(sinks) and all(n.endswith('Sink::push') for n in sinks), config=cfg, fn=fn, site='sink-route', unrecognised=True,
+           what='stub patterns registered via %s' % sorted(set(sinks)), found=sorted(set(sinks)), expected=['clause::term::Sink::push'])
 
 
 def tuple_order(chk, F, rule, cfg):
